@@ -264,8 +264,9 @@ def _join(states):
 
 
 class Effects:
-    def __init__(self, ctx):
+    def __init__(self, ctx, with_ext=True):
         self.ctx = ctx
+        self.with_ext = with_ext  # consult the escape analysis for callees outside rd.py
         self.prog = ctx.prog
         self.codes = Codes(ctx.prog)
         self.EA = EscapeAnalysis(ctx.prog)
@@ -471,12 +472,19 @@ class Effects:
     def ext_raises(self, fi, call):
         """4.xx classes escaping from a callee outside rd.py (whole closure, via the escape analysis)."""
         out = []
+        if not self.with_ext:
+            return out
         cs, kind = self.EA.res.resolve_callees(fi, call)
         for callee, sc in cs:
             if _in_rd(callee):
                 continue
             sh = self.EA.shape_for(fi, call, callee)
-            for e in self.EA.escapes(callee, sh, sc):
+            try:
+                escs = self.EA.escapes(callee, sh, sc)
+            except RecursionError:
+                # engine limitation (unbounded recursion in type inference for some proxy code); fail closed
+                raise AnalysisError("escape analysis does not terminate for %s called from %s" % (callee.short, fi.short))
+            for e in escs:
                 if self.codes.is_4xx(e.cls):
                     out.append((self.codes.canon(e.cls), "%s raised in %s" % (self.codes.canon(e.cls).split(".")[-1], e.func)))
         return out
@@ -616,7 +624,7 @@ class Effects:
                 if txt:
                     q = self.EA.res.class_of_name(fi, txt) or self.codes.canon(self.prog.resolve_in_module(fi.module, txt))
                     if self.codes.is_4xx(q) and not self.caught_locally(fi, st, self.codes.canon(q)):
-                        rz = [(self.codes.canon(q), "raise %s" % self.codes.canon(q).split(".")[-1])]
+                        rz = [(self.codes.canon(q), "%s raised in %s" % (self.codes.canon(q).split(".")[-1], fi.short.replace("cli.rd.", "")))]
             if rz:
                 events.append(((10 ** 9, 1), [], rz))
         events.sort(key=lambda x: x[0])
@@ -757,10 +765,14 @@ def a(ctx):
         prog.func(anchor)
     ctx.need(Codes(prog).is_4xx("aiocoap.error.BadRequest") and not Codes(prog).is_4xx("aiocoap.error.InternalServerError"), "cannot classify response codes of error.BadRequest / InternalServerError")
     sites = _check_published_premise(ctx)
+    # pass 1 (rd.py only, no escape sets): which handlers change RD state at all
+    E0 = Effects(ctx, with_ext=False)
+    entries = [fi for fi in _entries(prog) if E0.summary(fi, Env(None, {})).changes]
+    # pass 2: full analysis of those
     E = Effects(ctx)
     changing = 0
     reported = {}
-    for fi in _entries(prog):
+    for fi in entries:
         S = E.summary(fi, Env(None, {}))
         if not S.changes:
             continue
@@ -845,8 +857,7 @@ def b(ctx):
         for f, g in (INDEXES, INDEXES[::-1]):
             for n, key, val in ops[f][0]:
                 n_ins += 1
-                partner = [m for m, k2, v2 in ops[g][0] if isinstance(val, ast.Name) and dump(v2) == dump(val) and _paired(cfg, n, m)
-                           and not any(x in cfg.reach({cfg.loc1(n)}) and x in cfg.reach({cfg.loc1(m)}) and False for x in ())]
+                partner = [m for m, k2, v2 in ops[g][0] if isinstance(val, ast.Name) and dump(v2) == dump(val) and _paired(cfg, n, m)]
                 same_def = True
                 if partner and isinstance(val, ast.Name):
                     d1 = reaching_defs(fi, val.id, cfg.loc1(n))
@@ -965,8 +976,7 @@ def c(ctx):
             okr = False
             if b is not None and isinstance(b["old"], ast.Name):
                 odefs = reaching_defs(ie, b["old"].id, wn)
-                okold = bool(odefs) and all(isinstance(o, ast.Assign) and isinstance(o.value, ast.Subscript) and _table_of(o.value.value) == "_by_key"
-                                            and any(dump(resolve_local(ie.node, o.value.slice)) == dump(resolve_local(ie.node, k)) for _, k, _ in ins_k) for o in odefs)
+                okold = bool(odefs) and all(isinstance(o, ast.Assign) and _reads_by_key(ie, o.value, ins_k) for o in odefs)
                 oklo = match("len(self.entity_prefix)", b["lo"]) is not None
                 okr = okold and oklo
             if okr:
@@ -990,6 +1000,16 @@ def c(ctx):
                and "path" in rp and not writes_to_name(ri.node, "path"), ri, st[0] if st else ri.node)
         others = [(f.short, x) for f in prog.funcs.values() if _in_rd(f) and f is not ri for k, x in stores_to_any(f.node, "path") if isinstance(x, (ast.Assign, ast.AugAssign)) and any(isinstance(t, ast.Attribute) for t in (x.targets if isinstance(x, ast.Assign) else [x.target]))]
         ctx.ob("a registration's path never changes after construction", not others, ri, None, construct="Registration.path", detail="; ".join(s for s, _ in others))
+
+
+def _reads_by_key(fi, v, ins_k):
+    """v is `<x>._by_key[K]` or `<x>._by_key.get(K)` with K the key the registration is inserted under."""
+    k = None
+    if isinstance(v, ast.Subscript) and _table_of(v.value) == "_by_key":
+        k = v.slice
+    elif isinstance(v, ast.Call) and isinstance(v.func, ast.Attribute) and v.func.attr == "get" and _table_of(v.func.value) == "_by_key" and len(v.args) == 1:
+        k = v.args[0]
+    return k is not None and any(dump(resolve_local(fi.node, k)) == dump(resolve_local(fi.node, k2)) for _, k2, _ in ins_k)
 
 
 def _infinite_loop_exits(cfg):
@@ -1109,7 +1129,7 @@ def d(ctx):
     s_nodes = [ucfg.loc1(c) for c, _ in find("self._set_timeout()", up.node)]
     r_nodes = [ucfg.loc1(c) for c, _ in find("self.refresh_timeout()", up.node)]
     allt = set(s_nodes) | set(r_nodes)
-    ctx.floor("timer calls in update_params", len(allt), 2)
+    ctx.floor("timer calls in update_params", len(allt), 1)
     ctx.ob("every normal path of update_params arms or refreshes the lifetime timer", ucfg.must_pass(ucfg.entry, allt), up, up.node, construct="update_params: timer on every path")
     ctx.ob("no path of update_params touches the timer twice", not any(y in ucfg.reach({x}) for x in allt for y in allt), up, up.node, construct="update_params: timer at most once")
     for c, _ in find("self._set_timeout()", up.node):
@@ -1296,6 +1316,34 @@ def f(ctx):
             for k in _refused_keys(prog, fi, nd.ast, nd.kind == "T", qparam):
                 if k in est:
                     est[k].add(nd.id)
+    # guard wrappers, one level: a helper called with the parameter dictionary whose every normal
+    # return is behind refusal guards establishes the same facts at its call site
+    for nd in cfg.nodes:
+        if nd.kind != "stmt" or not isinstance(nd.ast, ast.Expr) or not isinstance(nd.ast.value, ast.Call):
+            continue
+        call = nd.ast.value
+        helper = None
+        if isinstance(call.func, ast.Attribute) and chain(call.func.value) == "self":
+            helper = prog.lookup_method(REGQN, call.func.attr)
+        elif isinstance(call.func, ast.Name):
+            helper = prog.funcs.get(fi.module.name + "." + call.func.id)
+        if helper is None or helper is fi or not _in_rd(helper):
+            continue
+        hp = params(helper)
+        bound = Effects.bind_args(call, hp)
+        hq = [pn for pn, a in bound.items() if isinstance(a, ast.Name) and a.id == qparam]
+        if len(hq) != 1 or writes_to_name(helper.node, hq[0]):
+            continue
+        hcfg = cfg_of(helper)
+        hest = {k: set() for k in RESERVED}
+        for hn in hcfg.nodes:
+            if hn.kind in ("T", "F") and not isinstance(hn.ast, (ast.For, ast.AsyncFor)):
+                for k in _refused_keys(prog, helper, hn.ast, hn.kind == "T", hq[0]):
+                    if k in hest:
+                        hest[k].add(hn.id)
+        for k in RESERVED:
+            if hest[k] and hcfg.exit not in hcfg.reach({hcfg.entry}, avoid=hest[k], skip_labels=("exc",)):
+                est[k].add(nd.id)
     for k in RESERVED:
         bad = [nd for nd in effects if not est[k] or nd.id in cfg.reach({cfg.entry}, avoid=est[k])]
         ctx.ob("a request carrying parameter %r is refused before update_params stores anything" % k, not bad, fi, _node_construct(bad[0]) if bad else fi.node,
